@@ -213,6 +213,7 @@ void run_case(char *rest)
 	long live0 = xa_live;
 	memset(node, 0, sizeof(node)); memset(dead, 0, sizeof(dead)); memset(hascb, 0, sizeof(hascb));
 	cb_alive = 0; maxid = 0;
+	json_global_set_string_hash(JSON_C_STR_HASH_DFLT);
 	while (nckey > 0) (free)(ckey[--nckey]);
 	xa_reset();
 	for (tok = strtok_r(rest, ";", &save); tok; tok = strtok_r(NULL, ";", &save)) {
@@ -225,6 +226,10 @@ void run_case(char *rest)
 		evlen = 0; evbuf[0] = 0;
 		for (w = strtok_r(tok, " ", &sv2); w && na < 6; w = strtok_r(NULL, " ", &sv2)) a[na++] = w;
 		if (na == 0) { printf("BADOP"); return; }
+		if (!strcmp(a[0], "hash") && na == 2) {
+			printf("%d -", json_global_set_string_hash(atoi(a[1])));
+			continue;
+		}
 		if (strchr(a[0], '=') && a[0][0] == 'h') {            /* constructors */
 			char *eq = strchr(a[0], '=');
 			long id = strtol(a[0] + 1, NULL, 10);
@@ -371,5 +376,6 @@ void run_case(char *rest)
 		} else { printf("BADOP"); return; }
 		printf("%ld %s", ret, evlen ? evbuf : "-");
 	}
+	json_global_set_string_hash(JSON_C_STR_HASH_DFLT);
 	printf(" | end %ld %ld", cb_alive, xa_live - live0);
 }
